@@ -594,7 +594,7 @@ Section TextProofs.
     run_text enc dec w a n (TStr s) = TODone (TVStr s) (RTVlen [b]) (TVStr s).
   Proof.
     intros w a n s b He Hn. unfold run_text. simpl. unfold enc1. rewrite He, Hn. simpl.
-    rewrite (dec_enc _ _ He). reflexivity.
+    unfold text_fetch. simpl. rewrite (dec_enc _ _ He). reflexivity.
   Qed.
 
   Theorem text_roundtrip_bytes : forall w a n b s b',
@@ -602,7 +602,7 @@ Section TextProofs.
     run_text enc dec w a n (TBytes b) = TODone (TVStr s) (RTVlen [b']) (TVStr s).
   Proof.
     intros w a n b s b' Hd He Hn. unfold run_text. simpl. rewrite Hd. simpl. unfold enc1. rewrite He, Hn. simpl.
-    rewrite (dec_enc _ _ He). reflexivity.
+    unfold text_fetch. simpl. rewrite (dec_enc _ _ He). reflexivity.
   Qed.
 
   Lemma dec_all l bs : map enc l = map Some bs -> all_some (map dec bs) = Some l.
@@ -783,7 +783,8 @@ Proof.
   - intros E _; apply Some_inj in E; subst b. reflexivity.
   - destruct (enc_cp c) as [bc|] eqn:Ec; [|discriminate].
     destruct (utf8_enc s) as [bs|] eqn:Es; [|discriminate].
-    intros E Hn; apply Some_inj in E; subst b. unfold has_nul in *. rewrite existsb_app'.
+    intros E Hn; apply Some_inj in E; subst b.
+    assert (has_nul (bc ++ bs) = has_nul bc || has_nul bs) as -> by apply existsb_app'.
     rewrite (enc_cp_no_nul _ _ Ec) by (intros ->; apply Hn; left; reflexivity).
     rewrite (IH _ eq_refl) by (intros H; apply Hn; right; assumption). reflexivity.
 Qed.
@@ -826,3 +827,57 @@ Proof. reflexivity. Qed.
 
 Lemma blob_rejections : blob_store FNotBytes = Err ValueErr /\ blob_store (FBytes []) = Err ValueErr.
 Proof. split; reflexivity. Qed.
+
+(* ------------------------------------------------------------------ per-version statements used by Properties/C08.v *)
+Definition complex_rejected (w : ver) : Prop :=
+  forall a n l, exists e, store w CFloat a n (ACplx l) = Err e.
+
+Theorem complex_rejected_repaired : complex_rejected Repaired.
+Proof. intros a n l. apply unsupported_type_rejected. discriminate. Qed.
+
+Theorem complex_rejected_old_refuted : ~ complex_rejected Old.
+Proof. intros H. destruct (H AVertex 1%nat [(FInt 1, FInt 2)]) as [e He]. discriminate He. Qed.
+
+Definition text_too_long_rejected (w : ver) : Prop :=
+  forall n l, (n < length l)%nat -> run_text utf8_enc utf8_dec w AVertex n (TArrU l) = TOStoreErr ValueErr.
+
+Theorem text_too_long_rejected_repaired : text_too_long_rejected Repaired.
+Proof. intros n l H. apply text_rejections. assumption. Qed.
+
+Theorem text_too_long_old_refuted : ~ text_too_long_rejected Old.
+Proof. intros H. specialize (H 2%nat [[97]; [98]; [99]]%N ltac:(simpl; lia)). discriminate H. Qed.
+
+(* a stored byte array can always be read back *)
+Definition text_bytes_readable (w : ver) : Prop :=
+  forall a n l v r e, run_text utf8_enc utf8_dec w a n (TArrS l) <> TOReadErr v r e.
+
+Theorem text_bytes_readable_old_refuted : ~ text_bytes_readable Old.
+Proof. intros H. apply (H AVertex 1%nat [[255]]%N (TVArrS [[255]]%N) (RTFixed [[255]]%N) UnicodeDecodeErr). reflexivity. Qed.
+
+Theorem text_bytes_readable_repaired : text_bytes_readable Repaired.
+Proof.
+  intros a n l v r e H.
+  destruct (all_some (map utf8_dec l)) as [ss|] eqn:Ed.
+  - destruct ss as [|s ss].
+    + unfold run_text in H. simpl text_set in H. rewrite Ed in H. discriminate H.
+    + rewrite (text_arrS_as_arrU utf8_enc utf8_dec a n l (s :: ss)) in H by (congruence || assumption).
+      (* the decoded strings come from the strict decoder; if they are written, the bytes written decode again *)
+      unfold run_text in H.
+      destruct (text_set utf8_dec Repaired a n (TArrU (s :: ss))) as [tv|] eqn:Es; [|discriminate H]. cbn [bind] in H.
+      assert (tv = TVArrU (s :: ss)) as ->.
+      { simpl in Es. destruct a; [destruct (n <? _)%nat|]; inversion Es; reflexivity. }
+      destruct (text_write utf8_enc (TVArrU (s :: ss))) as [tr|] eqn:Ew; [|discriminate H]. cbn [bind] in H.
+      unfold text_write, enc_arr in Ew.
+      destruct (all_some (map utf8_enc (s :: ss))) as [bs|] eqn:Ea; [|discriminate Ew].
+      destruct (existsb has_nul bs); [discriminate Ew|]. cbn [bind] in Ew. inversion Ew; subst tr.
+      apply all_some_spec in Ea.
+      pose proof (dec_all utf8_enc utf8_dec utf8_dec_enc (s :: ss) bs Ea) as Hd.
+      unfold text_fetch in H. destruct bs as [|b bs]; [discriminate Ea|]. rewrite Hd in H.
+      destruct ss; discriminate H.
+  - unfold run_text in H. simpl text_set in H. rewrite Ed in H. discriminate H.
+Qed.
+
+Definition blob_full : Prop := forall is_Data b, b <> [] -> blob_fetch is_Data b = Some b.
+
+Theorem blob_full_refuted : ~ blob_full.
+Proof. intros H. specialize (H true [120%N] ltac:(discriminate)). discriminate H. Qed.
